@@ -3,6 +3,7 @@ package handler
 import (
 	"fmt"
 	"math/rand"
+	"sync"
 	"testing"
 	"testing/synctest"
 
@@ -19,13 +20,13 @@ type voteState struct {
 	voteTerm uint64 // 0 = no record
 	voteCand string // "" with voteTerm != 0: term without candidate
 	logTerms []uint64
-	cfg      int // 0: S,A,B voters (C absent); 1: A is a non-voter; 2: no configuration at all
+	cfg      int    // 0: S,A,B voters (C absent); 1: A is a non-voter; 2: no configuration at all
 	snapIdx  uint64 // a complete snapshot ahead of the log (0 = none): the voter's last entry is the snapshot's
 	snapTerm uint64
 }
 
 type vmsg struct {
-	kind     byte // 'v' RequestVote, 'p' RequestPreVote, 'h' heartbeat
+	kind     byte // 'v' RequestVote, 'p' RequestPreVote, 'h' heartbeat, 't' TimeoutNow (the server campaigns itself)
 	term     int  // relative to the voter's initial term: -1..+2
 	cand     string
 	logPos   int // -1 behind, 0 equal, +1 ahead of the voter's last entry
@@ -106,6 +107,49 @@ func runVote(c vcase, col *table.Collector) vobs {
 	}
 	synctest.Wait()
 	startOps := s.D.Ops() // NewRaft itself writes the term once
+	// Fake peers A and B: they hold every RequestVote of S until the end of the message
+	// sequence and then grant it, so that S's own candidacy (message 't') can succeed late.
+	release, stopPeers := make(chan struct{}), make(chan struct{})
+	var peerWG sync.WaitGroup
+	for _, pn := range []string{"A", "B"} {
+		pd := sim.NewDisk(s.W, pn, sim.Flavor{})
+		ph := pd.Open()
+		pt := s.Net.NewTrans(pn, pd, ph.Epoch(), false, false)
+		peerWG.Add(1)
+		go func() {
+			defer peerWG.Done()
+			for {
+				select {
+				case <-stopPeers:
+					return
+				case rpc := <-pt.Consumer():
+					switch q := rpc.Command.(type) {
+					case *raft.RequestVoteRequest:
+						peerWG.Add(1)
+						go func() {
+							defer peerWG.Done()
+							select {
+							case <-release:
+								rpc.Respond(&raft.RequestVoteResponse{RPCHeader: Hdr(pn), Term: q.Term, Granted: true}, nil)
+							case <-stopPeers:
+								rpc.Respond(nil, fmt.Errorf("peer gone"))
+							}
+						}()
+					case *raft.RequestPreVoteRequest:
+						rpc.Respond(&raft.RequestPreVoteResponse{RPCHeader: Hdr(pn), Term: q.Term, Granted: true}, nil)
+					case *raft.AppendEntriesRequest:
+						rpc.Respond(&raft.AppendEntriesResponse{RPCHeader: Hdr(pn), Term: q.Term, LastLog: q.PrevLogEntry + uint64(len(q.Entries)), Success: true}, nil)
+					default:
+						rpc.Respond(nil, fmt.Errorf("not served"))
+					}
+				}
+			}
+		}()
+	}
+	defer func() {
+		close(stopPeers)
+		peerWG.Wait()
+	}()
 	if c.fault.nth > 0 {
 		s.D.Arm(sim.Fault{Kind: "set", Nth: c.fault.nth, When: c.fault.when})
 	}
@@ -153,6 +197,10 @@ func runVote(c vcase, col *table.Collector) vobs {
 			rr = s.Tr.Inject(&raft.RequestPreVoteRequest{RPCHeader: Hdr(m.cand), Term: term, LastLogIndex: ci, LastLogTerm: ct}, nil)
 		case 'h':
 			rr = s.Tr.Inject(&raft.AppendEntriesRequest{RPCHeader: Hdr(m.cand), Term: term, Leader: []byte(m.cand)}, nil)
+		case 't':
+			rr = s.Tr.Inject(&raft.TimeoutNowRequest{RPCHeader: Hdr("A")}, nil)
+			synctest.Wait() // the candidacy runs up to the point where its requests wait at the peers
+			col.Cov("own-candidacy", 1)
 		}
 		resp = rr.Response
 		// a vote is cast when both writes of one persistVote call are durable,
@@ -217,6 +265,12 @@ func runVote(c vcase, col *table.Collector) vobs {
 		case *raft.AppendEntriesResponse:
 			rTerm = r.Term
 		}
+		if m.kind == 't' {
+			if ct := s.R.CurrentTerm(); ct > maxTerm {
+				maxTerm = ct
+			}
+			continue
+		}
 		if m.kind != 'p' {
 			// reported terms never decrease (a pre-vote response echoes the proposed term by design)
 			if rTerm < maxTerm {
@@ -248,6 +302,20 @@ func runVote(c vcase, col *table.Collector) vobs {
 				o.violation = append(o.violation, fmt.Sprintf("grant-with-wrong-term: granted in term %d but answered term %d", term, rTerm))
 			}
 		}
+	}
+	// the peers now grant whatever S asked them: if S wins a term it has counted its own vote for it
+	if !s.Crashed() {
+		close(release)
+		synctest.Wait()
+		if s.R.State() == raft.Leader {
+			col.Cov("own-candidacy-won", 1)
+			lt := s.R.CurrentTerm()
+			if prev, ok := granted[lt]; ok && prev != "S" {
+				o.violation = append(o.violation, fmt.Sprintf("two-votes-one-term: became leader of term %d, counting its own vote, after granting %s in that term", lt, prev))
+			}
+		}
+	} else {
+		close(release)
 	}
 	o.writes = int(s.D.Ops() - startOps)
 	_ = base
@@ -303,6 +371,11 @@ func voteCases(f func(vcase)) {
 				f(vcase{st: st, msgs: []vmsg{m1, m2}})
 			}
 		}
+		// the server's own candidacy (TimeoutNow), followed / preceded by a competitor's request
+		for _, m2 := range msgs {
+			f(vcase{st: st, msgs: []vmsg{{kind: 't'}, m2}})
+			f(vcase{st: st, msgs: []vmsg{m2, {kind: 't'}}})
+		}
 	}
 }
 
@@ -323,7 +396,11 @@ func TestC06(t *testing.T) {
 	synctest.Test(t, func(t *testing.T) {
 		voteCases(func(c vcase) {
 			k++
-			if k%shards != shard || rng.Float64() > p {
+			pc := p
+			if c.msgs[0].kind == 't' || c.msgs[1].kind == 't' {
+				pc = p * 8 // the server's own candidacy is a small corner of the space
+			}
+			if k%shards != shard || rng.Float64() > pc {
 				return
 			}
 			// third message: seeded
